@@ -100,7 +100,9 @@ def aboveNine (c : Nat) : Bool := decide ((c : Int) - 48 > 9)
 /-- `char::from_digit((ch as u32) - ('0' as u32), 10)` with the `u32` subtraction wrapping.  When it is `Some`,
 the character it returns is `'0' + (ch − '0')`, that is `ch` itself. -/
 def reDigit (ch : Nat) : Option Nat :=
-  if (ch + 4294967296 - 48) % 4294967296 < 10 then some ch else none
+  -- the wrapped difference: below `'0'` it is `ch + 2^32 − 48 ≥ 2^32 − 48`
+  let x := if 48 ≤ ch then ch - 48 else ch + 4294967296 - 48
+  if x < 10 then some ch else none
 
 /-- `char::to_digit(c, 10)` -/
 def toDigit10 (c : Nat) : Option Nat := if isDigitB c then some (c - 48) else none
